@@ -355,3 +355,5 @@ for _p in ("C15", "C14"):
 H("C02", "html/layout", "VxH_C02_footnotes", reach=["laid-out", "several-pages"], bounds="a paragraph with 2..4 (thorough 5) footnotes (float: footnote), on one line or one per line, @footnote max-height in 7 values (2px .. 40px, none), 100px pages; VxAhem font model", quick={"maxsteps": 300000000, "shards": 6})
 for _p in ("C04", "C01"):
     H(_p, "html/layout", "VxH_C04_ex_ch", reach=["laid-out"], bounds="a paragraph in a 10px body with one of 7 declarations using ex / ch (font-size, width, tab-size, hyphenate-limit-zone, margin); font configuration: VxAhem (x-height 0.8 em, '0' advance 1 em)", quick={"maxsteps": 100000000, "maxdepth": 2000})
+H("C08", "css/validation", "VxH_C08_important_comments", reach=["validated"], bounds="3 declarations x 5 separators (nothing, space, comment, mixed) before '!', after '!' and after 'important' x 3 spellings, parsed from source text with comments kept (as the style pipeline does)", quick={"shards": 4})
+H("C04", "html/tree", "VxH_C04_font_size_steps", mode="real", reach=["computed", "within-table"], bounds="parent font size a symbolic real in [1,100] px, child font-size smaller / larger")
